@@ -3420,3 +3420,30 @@ for _n, _what, _r in (
         ('C05-mut09', 'canonical-bytes-fresh-subpackets', 'C05.4'), ('C05-mut10', 'capture-kept-only-if-length-differs', 'C05.1'),
         ('C05-mut11', 'update-hlen-drops-capture', 'C05.3')):      # C05-mut12 (sigtype & 0x7f) is the corpus entry 'sigtype-masked'
     _MD(_n[:3], 'stress-G2-%s-%s' % (_n, _what), 'G2-%s.diff' % _n, _r)
+
+
+# =============================================================================================== C02 / C05: load path, caches, cooperating sites, degenerate slices
+_SPP = "        self.subpackets.parse(packet)\n\n        self.hash2 = packet[:2]\n"
+M('C05', 'load-synthesises-hashed-issuer', PK, _SPP, "        self.subpackets.parse(packet)\n\n        if 'Issuer' not in self.subpackets:\n            hfprs = [sp for sp in self.subpackets['h_IssuerFingerprint'] if sp.version == 4]\n            fprs = [sp for sp in self.subpackets['IssuerFingerprint'] if sp.version == 4]\n            if fprs:\n                self.subpackets.addnew('Issuer', hashed=bool(hfprs), _issuer=str((hfprs or fprs)[-1].issuer_fingerprint.keyid))\n\n        self.hash2 = packet[:2]\n", 'C05.1')
+M('C05', 'load-helper-refiles-first-hashed', PK, _SPP, "        self.subpackets.parse(packet)\n        self._dedupe_creation_time()\n\n        self.hash2 = packet[:2]\n", 'C05.1',
+  more=[(PK, "    def update_hlen(self):\n        self.subpackets.update_hlen()\n        super(SignatureV4, self).update_hlen()", "    def _dedupe_creation_time(self):\n        times = self.subpackets['h_CreationTime']\n        if len(times) > 1:\n            self.subpackets['h_CreationTime'] = times[-1]\n\n    def update_hlen(self):\n        self.subpackets.update_hlen()\n        super(SignatureV4, self).update_hlen()")])
+M('C05', 'load-composition-adds-features', PGP, "        if isinstance(other, Signature):\n            if self._signature is None:\n                self._signature = other\n                return self\n",
+  "        if isinstance(other, Signature):\n            if self._signature is None:\n                self._signature = other\n                if not other.subpackets['h_Features']:\n                    other.subpackets.addnew('Features', hashed=True, flags=Features.pgpy_features)\n                return self\n", 'C05.1')
+M('C05', 'load-drops-capture-for-v4-only', PK, _SPP, "        self.subpackets.parse(packet)\n        if self.header.version != 4:\n            self.subpackets._hashed_raw = None\n\n        self.hash2 = packet[:2]\n", 'C05.1')
+M('C05', 'load-normalises-deprecated-rsa-id', PK, "        self.pubalg = packet[0]\n        del packet[0]\n\n        self.halg = packet[0]\n        del packet[0]\n", "        self.pubalg = packet[0]\n        del packet[0]\n        if self.pubalg == PubKeyAlgorithm.RSASign:\n            self.pubalg = PubKeyAlgorithm.RSAEncryptOrSign\n\n        self.halg = packet[0]\n        del packet[0]\n", 'C05.5')
+T('C05', 'twin-load-subpackets-alias-and-unhashed-literal-read', PK, _SPP, "        area = self.subpackets\n        area.parse(packet)\n        _issuers = area['Issuer']\n\n        self.hash2 = packet[:2]\n")
+_REPLAY = "        if self._hashed_raw is not None:\n            # signatures are computed over the octets that were received, not over a re-encoding of them\n            return bytearray(self._hashed_raw)\n\n        _bytes = bytearray()\n        _bytes += self.int_to_bytes(sum(len(sp) for sp in self._hashed_sp.values()), 2)"
+M('C05', 'replay-cache-survives-reparse', FL, _REPLAY, "        if getattr(self, '_hashed_cache', None) is not None:\n            return bytearray(self._hashed_cache)\n        if self._hashed_raw is not None:\n            self._hashed_cache = bytearray(self._hashed_raw)\n            return bytearray(self._hashed_raw)\n\n        _bytes = bytearray()\n        _bytes += self.int_to_bytes(sum(len(sp) for sp in self._hashed_sp.values()), 2)", 'C05.2')
+M('C05', 'replay-cache-attribute-first', FL, _REPLAY, "        if self._hashed_cache is not None:\n            return bytearray(self._hashed_cache)\n        if self._hashed_raw is not None:\n            self._hashed_cache = self._hashed_raw\n            return bytearray(self._hashed_raw)\n\n        _bytes = bytearray()\n        _bytes += self.int_to_bytes(sum(len(sp) for sp in self._hashed_sp.values()), 2)", 'C05.2',
+  more=[(FL, "        self._hashed_raw = None\n\n    def __bytearray__(self):", "        self._hashed_raw = None\n        self._hashed_cache = None\n\n    def __bytearray__(self):")])
+M('C05', 'replay-dirty-flag-two-sites', FL, "        if self._hashed_raw is not None:\n            # signatures", "        if self._hashed_raw is not None and not getattr(self, '_lengths_dirty', False):\n            # signatures", 'C05.2',
+  more=[(FL, "    def update_hlen(self):\n        for sp in self:\n            sp.update_hlen()\n\n    def parse(self, packet):\n        hl =", "    def update_hlen(self):\n        for sp in self:\n            sp.update_hlen()\n        self._lengths_dirty = True\n\n    def parse(self, packet):\n        hl =")])
+M('C05', 'trailer-length-from-parsed-subpackets', PGP, "        hlen = len(hcontext)\n", "        hlen = 4 + 2 + sum(len(sp) for sp in self._signature.subpackets._hashed_sp.values())\n", 'C05.4')
+M('C02', 'trailer-length-from-parsed-subpackets', PGP, "        hlen = len(hcontext)\n", "        hlen = 4 + 2 + sum(len(sp) for sp in self._signature.subpackets._hashed_sp.values())\n", 'C02.1')
+M('C05', 'capture-all-but-tail-degenerates', FL, "        hashed_raw = packet[:2 + hl]", "        hashed_raw = packet[:-(len(packet) - 2 - hl)]", 'C05.1')
+M('C05', 'replay-negative-slice-degenerates', FL, "            return bytearray(self._hashed_raw)\n", "            return bytearray(self._hashed_raw[-(len(self._hashed_raw) - 0):] if False else self._hashed_raw[:2] + self._hashed_raw[-(len(self._hashed_raw) - 2):])\n", 'C05.2')
+M('C02', 'rsa-sig-negative-slice-degenerates', FL, "        return self.md_mod_n.to_mpibytes()[2:]", "        mpi = self.md_mod_n.to_mpibytes()\n        return mpi[-(len(mpi) - 2):]", 'C02.4')
+M('C02', 'hash2-negative-slice-degenerates', PGP, "        sig._signature.hash2 = bytearray(h2.digest()[:2])", "        digest = h2.digest()\n        sig._signature.hash2 = bytearray(digest[:-(len(digest) - 2)])", 'C02.2')
+M('C02', 'key-hashdata-negative-slice-degenerates', PGP, "        return self._uid.__bytearray__()[len(self._uid.header):]", "        body = self._uid.__bytearray__()\n        return body[-(len(body) - len(self._uid.header)):]", 'C02.1b')
+T('C05', 'twin-parse-split-into-two-helpers', FL, "    def parse(self, packet):\n        hl = self.bytes_to_int(packet[:2])\n        hashed_raw = packet[:2 + hl]", "    def parse(self, packet):\n        self._parse_hashed(packet)\n        self._parse_unhashed(packet)\n\n    def _parse_hashed(self, packet):\n        hl = self.bytes_to_int(packet[:2])\n        hashed_raw = packet[:2 + hl]",
+  more=[(FL, "        self._hashed_raw = hashed_raw\n\n        uhl = self.bytes_to_int(packet[:2])", "        self._hashed_raw = hashed_raw\n\n    def _parse_unhashed(self, packet):\n        uhl = self.bytes_to_int(packet[:2])")])
